@@ -3,7 +3,20 @@ ASSUMPTIONS = []
 BITS = {"lib/bit_stream_reader.c": ["peek_bits", "read_bits", "read_bit"]}
 HARNESSES = [
     dict(name="mtf.init", src="C04/mtf.c", entry="harness_init", unwind=257, units=["lib/pma_common.c:init_history_list"], timeout=120, bounds="concrete, all 256 ranks"),
-    dict(name="mtf.update", src="C04/mtf.c", entry="harness_update", unwind=9, units=["lib/pma_common.c:update_history_list"], timeout=100, bounds="256"),
-    dict(name="mtf.walk", src="C04/mtf.c", entry="harness_walk", unwind=9, units=["lib/pma_common.c:find_in_history_list"], timeout=100, bounds="256"),
-    dict(name="mtf.find", src="C04/mtf.c", entry="harness_find", unwind=257, unwindset={"find_in_history_list.0": 129, "find_in_history_list.1": 130, "harness_find.1": 12}, units=["lib/pma_common.c:find_in_history_list"], timeout=100, bounds="256"),
+    dict(name="mtf.update", src="C04/mtf.c", entry="harness_update", unwind=9, backend="cadical", units=["lib/pma_common.c:update_history_list"], timeout=200, bounds="256"),
+    dict(name="mtf.walk", src="C04/mtf.c", entry="harness_walk", unwind=9, backend="cvc5", units=["lib/pma_common.c:find_in_history_list"], timeout=100, bounds="256"),
+    dict(name="mtf.find", src="C04/mtf.c", entry="harness_find", unwind=257, unwindset={"find_in_history_list.0": 129, "find_in_history_list.1": 130}, units=["lib/pma_common.c:find_in_history_list"], timeout=100, bounds="256"),
+    dict(name="pm2.tables.code", src="C04/pm2_tables.c", entry="harness_code", backend="cadical", rename_defs=dict(BITS, **{"lib/tree_decode.c": ["build_tree"]}),
+         unwind=3, unwindset={"bs_ref.0": 8, "read_code_tree.0": 33, "load_bits.0": 37, "harness_code.0": 66, "pm2_ref_code_table.0": 33, "build_tree.0": 34, "read_from_tree.0": 3},
+         units=["lib/pm2_decoder.c:read_code_tree"], timeout=200, bounds="x"),
+    dict(name="pm2.tables.offset", src="C04/pm2_tables.c", entry="harness_offset", rename_defs=dict(BITS, **{"lib/tree_decode.c": ["build_tree"]}),
+         unwind=3, unwindset={"bs_ref.0": 8, "read_offset_tree.0": 10, "load_bits.0": 37, "harness_offset.0": 18, "pm2_ref_offset_table.0": 10, "build_tree.0": 34, "read_from_tree.0": 3},
+         units=["lib/pm2_decoder.c:read_offset_tree"], timeout=200, bounds="x"),
+    dict(name="pm2.sched.step", src="C04/pm2_sched.c", entry="harness_step", defines=["STEP_HARNESS"],
+         rename_defs=dict(BITS, **{"lib/pm2_decoder.c": ["read_code_tree", "read_offset_tree"]}), unwind=3,
+         units=["lib/pm2_decoder.c:output_byte,rebuild_tree"], timeout=200, bounds="x"),
+    dict(name="pm2.sched.start", src="C04/pm2_sched.c", entry="harness_start", defines=["START_HARNESS"],
+         rename_defs=dict(BITS, **{"lib/pm2_decoder.c": ["read_code_tree", "read_offset_tree"]}), unwind=3,
+         unwindset={"memset.0": 8200, "init_history_list.0": 257, "init_tree.0": 66, "find_in_history_list.0": 9, "find_in_history_list.1": 2, "bs_ref.0": 4},
+         units=["lib/pm2_decoder.c:lha_pm2_decoder_init,lha_pm2_decoder_read,rebuild_tree"], timeout=200, bounds="x"),
 ]
